@@ -9,6 +9,13 @@
 //   5 ty n v1..vn           s = toString(vector); stringTo                         -> |s| s ok m elems...
 //   7 ty lo hi              for v in lo..hi: stringTo(toString(T(v))) == v ?                 -> #failures first-failure
 //   6 k                     k = 0: <climits>; k = enum type code: eMin eMax |rep| rep
+//   8 ...                   lists written into NON-EMPTY accumulators (the appending use of xconvert(std::string&, ...)):
+//     8 0 ta a ty n v..            s = toString(A(a), vector<T>)        -> |s| s tok a' (end - x) [lok m elems.. | 0 0]
+//     8 1 ta a tb b ty n v..       s = toString(A(a), B(b), vector<T>)  -> |s| s tok a' k [tok b' k [lok m elems.. | 0 0] | 0 0 0 0 0]
+//     8 2 ty sep plen bytes n v..  accu = bytes; xconvert(accu, begin, end, char(sep)) (iterator range, custom separator);
+//                                  xconvert(accu.c_str() + plen, vector<T>&, &end, sep)   -> |accu| accu t (end - start) elems..
+//     8 3 ty d n v.. m w..         accu = ""; xconvert(accu, l1); accu += char(d); xconvert(accu, l2) -> |accu| accu |part1| ok1 m1 e.. ok2 m2 e..
+//     8 4 ty n v..                 accu = "["; xconvert(accu, vec); accu += "]"; string_cast(accu) -> |accu| accu ok m elems..
 // ty: 0 bool 1 char 2 int 3 unsigned 4 long 5 unsigned long 6 long long 7 unsigned long long
 //     8 Head_t 9 Body_t 10 Value_t 11 Heuristic_t 12 Directive_t 13 Theory_t 14 Tuple_t 15 Clause_t 16 Statistics_t
 #include "common.h"
@@ -177,6 +184,97 @@ template <class T> void opSweep(Obs& o, ll lo, ll hi) {
 	}
 	o.add(fails); o.add(first);
 }
+// ---- op 8: lists appended to non-empty accumulators ----
+template <class T> bool makeList(const std::vector<ll>& vs, std::vector<T>& in) {
+	for (std::size_t i = 0; i != vs.size(); ++i) {
+		if (!Tr<T>::repr(normalised<T>(vs[i]))) return false;
+		in.push_back(Tr<T>::make(vs[i]));
+	}
+	return true;
+}
+template <class T> void addCastList(Obs& o, const char* x) {
+	std::vector<T> back;
+	bool ok = string_cast(x, back);
+	o.add(ok ? 1 : 0); o.add(static_cast<ll>(back.size()));
+	for (std::size_t i = 0; i != back.size(); ++i) o.add(Tr<T>::enc(back[i]));
+}
+// xconvert(x, A&, &end): tok value consumed; returns the position behind a following ',' or 0
+template <class A> const char* addScalarThen(Obs& o, const char* x) {
+	A out = Tr<A>::init(); const char* end = 0;
+	int tok = xconvert(x, out, &end, 0);
+	o.add(tok != 0 ? 1 : 0); o.add(tok != 0 ? Tr<A>::enc(out) : 0); o.add(static_cast<ll>(end - x));
+	return tok != 0 && *end == ',' ? end + 1 : 0;
+}
+template <class A, class T> void opToString2(Obs& o, ll a, const std::vector<ll>& vs) {
+	std::vector<T> in;
+	if (!Tr<A>::repr(normalised<A>(a)) || !makeList<T>(vs, in)) { o.add(-998); return; }
+	std::string s = toString(Tr<A>::make(a), in);
+	o.add(static_cast<ll>(s.size())); o.addBytes(s.data(), s.size());
+	setErrno(false);
+	const char* n = addScalarThen<A>(o, s.c_str());
+	if (n) addCastList<T>(o, n); else { o.add(0); o.add(0); }
+}
+template <class A, class B, class T> void opToString3(Obs& o, ll a, ll b, const std::vector<ll>& vs) {
+	std::vector<T> in;
+	if (!Tr<A>::repr(normalised<A>(a)) || !Tr<B>::repr(normalised<B>(b)) || !makeList<T>(vs, in)) { o.add(-998); return; }
+	std::string s = toString(Tr<A>::make(a), Tr<B>::make(b), in);
+	o.add(static_cast<ll>(s.size())); o.addBytes(s.data(), s.size());
+	setErrno(false);
+	const char* n = addScalarThen<A>(o, s.c_str());
+	if (!n) { for (int i = 0; i != 5; ++i) o.add(0); return; }
+	n = addScalarThen<B>(o, n);
+	if (n) addCastList<T>(o, n); else { o.add(0); o.add(0); }
+}
+template <class T> void opAppendRange(Obs& o, ll sep, const std::string& pre, const std::vector<ll>& vs) {
+	std::vector<T> in;
+	if (!makeList<T>(vs, in) || sep < 1 || sep > 255) { o.add(-998); return; }
+	std::string accu(pre);
+	xconvert(accu, in.begin(), in.end(), static_cast<char>(static_cast<unsigned char>(sep)));
+	o.add(static_cast<ll>(accu.size())); o.addBytes(accu.data(), accu.size());
+	std::vector<T> back; const char* start = accu.c_str() + pre.size(); const char* end = 0;
+	setErrno(false);
+	int t = xconvert(start, back, &end, static_cast<int>(static_cast<char>(static_cast<unsigned char>(sep))));
+	o.add(t); o.add(static_cast<ll>(end - start));
+	for (std::size_t i = 0; i != back.size(); ++i) o.add(Tr<T>::enc(back[i]));
+}
+template <class T> void opTwoLists(Obs& o, ll d, const std::vector<ll>& v1, const std::vector<ll>& v2) {
+	std::vector<T> l1, l2;
+	if (!makeList<T>(v1, l1) || !makeList<T>(v2, l2) || d < 1 || d > 255) { o.add(-998); return; }
+	std::string accu;
+	xconvert(accu, l1);
+	std::size_t p = accu.size();
+	accu += static_cast<char>(static_cast<unsigned char>(d));
+	xconvert(accu, l2);
+	o.add(static_cast<ll>(accu.size())); o.addBytes(accu.data(), accu.size()); o.add(static_cast<ll>(p));
+	std::string a = accu.substr(0, p), b = accu.substr(p + 1);
+	setErrno(false); addCastList<T>(o, a.c_str());
+	setErrno(false); addCastList<T>(o, b.c_str());
+}
+template <class T> void opBracketed(Obs& o, const std::vector<ll>& vs) {
+	std::vector<T> in;
+	if (!makeList<T>(vs, in)) { o.add(-998); return; }
+	std::string accu("[");
+	xconvert(accu, in);
+	accu += "]";
+	o.add(static_cast<ll>(accu.size())); o.addBytes(accu.data(), accu.size());
+	setErrno(false); addCastList<T>(o, accu.c_str());
+}
+static std::vector<ll> takeVals(Case& c) {
+	ll n = c.next(); std::vector<ll> vs;
+	for (ll i = 0; i < n && c.more(); ++i) vs.push_back(c.next());
+	return vs;
+}
+template <class F> bool withFew(ll ty, F f) {
+	switch (ty) {
+		case 0:  f(Tag<bool>()); return true;
+		case 2:  f(Tag<int>()); return true;
+		case 7:  f(Tag<unsigned long long>()); return true;
+		case 10: f(Tag<Value_t>()); return true;
+		default: return false;
+	}
+}
+static bool isFew(ll ty) { return ty == 0 || ty == 2 || ty == 7 || ty == 10; }
+
 template <class T> void opMeta(Obs& o) {
 	EnumClass ec = T::enumClass();
 	o.add(ec.min); o.add(ec.max); o.add(static_cast<ll>(std::strlen(ec.rep))); o.addBytes(ec.rep, std::strlen(ec.rep));
@@ -237,6 +335,41 @@ int main() {
 				ll ty = c.next(), lo = c.next(), hi = c.next();
 				if (ty < 0 || ty > 7 || lo > hi) o.add(-998);
 				else withScalar(ty, [&](auto t) { opSweep<typename decltype(t)::type>(o, lo, hi); });
+			}
+			else if (op == 8) {
+				ll k = c.next();
+				if (k == 0) {
+					ll ta = c.next(), a = c.next(), ty = c.next(); std::vector<ll> vs = takeVals(c);
+					if (!isComp(ta) || !isComp(ty)) o.add(-998);
+					else withComp(ta, [&](auto x) { withComp(ty, [&](auto t) { opToString2<typename decltype(x)::type, typename decltype(t)::type>(o, a, vs); }); });
+				}
+				else if (k == 1) {
+					ll ta = c.next(), a = c.next(), tb = c.next(), b = c.next(), ty = c.next(); std::vector<ll> vs = takeVals(c);
+					if (!isFew(ta) || !isFew(tb) || !isComp(ty)) o.add(-998);
+					else withFew(ta, [&](auto x) { withFew(tb, [&](auto y) { withComp(ty, [&](auto t) {
+						opToString3<typename decltype(x)::type, typename decltype(y)::type, typename decltype(t)::type>(o, a, b, vs); }); }); });
+				}
+				else if (k == 2) {
+					ll ty = c.next(), sep = c.next(), plen = c.next();
+					std::size_t avail = c.v.size() - c.p;
+					if (plen < 0 || (std::size_t)plen > avail) o.add(-998);
+					else {
+						std::string pre = c.bytes((size_t)plen); std::vector<ll> vs = takeVals(c);
+						if (!isComp(ty)) o.add(-998);
+						else withComp(ty, [&](auto t) { opAppendRange<typename decltype(t)::type>(o, sep, pre, vs); });
+					}
+				}
+				else if (k == 3) {
+					ll ty = c.next(), d = c.next(); std::vector<ll> v1 = takeVals(c), v2 = takeVals(c);
+					if (!isComp(ty)) o.add(-998);
+					else withComp(ty, [&](auto t) { opTwoLists<typename decltype(t)::type>(o, d, v1, v2); });
+				}
+				else if (k == 4) {
+					ll ty = c.next(); std::vector<ll> vs = takeVals(c);
+					if (!isComp(ty)) o.add(-998);
+					else withComp(ty, [&](auto t) { opBracketed<typename decltype(t)::type>(o, vs); });
+				}
+				else o.add(-998);
 			}
 			else o.add(-998);
 		}
